@@ -105,10 +105,10 @@ def seq(cs):
     cs = [c for c in cs if c != ('Skip',)]
     if not cs:
         return ('Skip',)
-    out = cs[-1]
-    for c in reversed(cs[:-1]):
-        out = ('Seq', c, out)
-    return out
+    if len(cs) == 1:
+        return cs[0]
+    h = len(cs) // 2                           # balanced, so that the nesting depth stays logarithmic
+    return ('Seq', seq(cs[:h]), seq(cs[h:]))
 
 
 class _Subst(ast.NodeTransformer):
